@@ -97,7 +97,15 @@ Numeric == /\ IsEv("numeric") /\ st = "idle"
            /\ (Ev.err \/ Ev.gnorm <= GTol * Ev.n)
            /\ UNCHANGED <<st, k, likPrev, recPrev, eps, maxSteps>>
 
-Next == Begin \/ Hook0 \/ HookI \/ HookMaybe \/ Return \/ ReturnErr \/ Abort \/ Numeric
+(* two quantities the contract says are equal, observed on two runs of the real estimators: the run  *)
+(* with ChunkSize and the run on sequences cut by hand; DiscreteMixtureEstimator (repeated values     *)
+(* stored once) and MixtureEstimator on the same data; the transition matrix before and after        *)
+(* Baum-Welch with OptimizeTransitions = false                                                        *)
+Twin == /\ IsEv("twin") /\ st = "idle"
+        /\ Near(Ev.a, Ev.b)
+        /\ UNCHANGED <<st, k, likPrev, recPrev, eps, maxSteps>>
+
+Next == Twin \/ Begin \/ Hook0 \/ HookI \/ HookMaybe \/ Return \/ ReturnErr \/ Abort \/ Numeric
 Spec == Init /\ [][Next]_vars
 
 HighWater == TLCSet(1, IF TLCGet(1) < l THEN l ELSE TLCGet(1))
